@@ -2,6 +2,7 @@ package gen
 
 import (
 	"crypto/ecdsa"
+	"encoding/json"
 	"crypto/elliptic"
 	"crypto/x509"
 	"encoding/hex"
@@ -22,7 +23,7 @@ type World map[string]string
 var Baseline = World{
 	"qsig": "ok", "ak": "ok", "mut": "none", "bind": "ok", "qeSigner": "leaf", "authLen": "n32", "extra": "none",
 	"leafPki": "A", "interPki": "A", "rootPki": "A", "pool": "A", "leafRole": "pck", "nBlocks": "n3", "trailer": "none",
-	"pemType": "cert", "interCN": "platform",
+	"pemType": "cert", "interCN": "platform", "leafId": "l1", "interSlot": "inter", "sharedSigner": "distinct", "src": "gen",
 	"tcbSigner": "ok", "tcbOver": "member", "tcbAlter": "none", "tcbExtra": "none", "tcbHdr": "ok", "tcbMeta": "ok",
 	"qeSignerDoc": "ok", "qeOver": "member", "qeAlter": "none", "qeExtra": "none", "qeHdr": "ok", "qeMeta": "ok",
 	"tcbContent": "ok", "modBranch": "none", "qeContent": "ok",
@@ -243,20 +244,32 @@ func Build(w World, p Params) *Concrete {
 		interCN = CNProcessor
 		c.CA = "processor"
 	}
-	A := NewPKI(PKIOpts{T0: t0, InterCN: interCN, RootCrlDP: dps, SerialBase: 0x1000})
-	B := NewPKI(PKIOpts{T0: t0, InterCN: interCN, RootCrlDP: dps, SerialBase: 0x1000}) // identical names and serials, other keys
+	ks := p.Seed*2654435761 + 12345 // key seed: worlds realised with the same Params.Seed share all named keys
+	if ks == 0 {
+		ks = 1
+	}
+	A := NewPKI(PKIOpts{T0: t0, InterCN: interCN, RootCrlDP: dps, SerialBase: 0x1000, Seed: ks, Name: "A"})
+	B := NewPKI(PKIOpts{T0: t0, InterCN: interCN, RootCrlDP: dps, SerialBase: 0x1000, Seed: ks, Name: "B"}) // identical names and serials, other keys
 	c.A, c.B = A, B
 	pki := map[string]*PKI{"A": A, "B": B}
 	H := pki[w.Get("leafPki")] // home PKI: issues the leaf and the honest collateral
 	O := pki[otherPKI(w.Get("leafPki"))]
-	foreign := NewKey()
+	foreign := NamedKey(ks, "foreign")
 
 	// second signer certificate (QE identity) so that the two signer serials are distinct
-	qeSignKey := NewKey()
+	qeSignKey := NamedKey(ks, w.Get("leafPki")+".qesign")
 	qeSignCert, qeSignDER := Issue(CertSpec{CN: CNTcbSign, Serial: big.NewInt(0x1004), NotBefore: win["qeSigner"].nb, NotAfter: win["qeSigner"].na,
 		CRLDP: dps, Pub: &qeSignKey.PublicKey, Parent: H.Root.Cert, SignKey: H.Root.Key})
 	qeSign := Entity{qeSignKey, qeSignCert, qeSignDER}
 	tcbSign := Reissue(H.TcbSign, H.Root.Cert, H.Root.Key, win["tcbSigner"].nb, win["tcbSigner"].na, nil)
+	if w.Get("sharedSigner") == "shared" { // Intel's practice: one signing certificate, byte-identical issuer chains for both documents
+		sw := win["tcbSigner"]
+		if strings.HasPrefix(w.Get("time"), "qeSigner_") {
+			sw = win["qeSigner"]
+		}
+		tcbSign = Reissue(H.TcbSign, H.Root.Cert, H.Root.Key, sw.nb, sw.na, nil)
+		qeSign = tcbSign
+	}
 
 	// ---- pool -----------------------------------------------------------------------
 	switch w.Get("pool") {
@@ -294,18 +307,32 @@ func Build(w World, p Params) *Concrete {
 	leafSerial := new(big.Int).SetBytes(append([]byte{0x5a}, RandBytes(rng, 19)...)) // 20-byte positive serial like Intel's
 	var leaf Entity
 	lw := win["leaf"]
+	// two PCK leaves of the same platform exist; the chain carries leafId, the other one is "the other leaf"
+	leafKeyName, otherLeafName := "leaf1", "leaf2"
+	if w.Get("leafId") == "l2" {
+		leafKeyName, otherLeafName = "leaf2", "leaf1"
+	}
+	leafKey, otherLeafKey := NamedKey(ks, leafKeyName), NamedKey(ks, otherLeafName)
+	if leafKeyName == "leaf2" {
+		leafSerial = new(big.Int).Add(leafSerial, big.NewInt(7))
+	}
 	switch w.Get("leafRole") {
 	case "pck":
-		leaf = H.NewLeaf(CNPck, leafSerial, ext, lw.nb, lw.na)
+		leaf = H.NewLeafKey(leafKey, CNPck, leafSerial, ext, lw.nb, lw.na)
 	case "wrongCN": // right issuer, SGX extension present, but the subject of another role
-		leaf = H.NewLeaf(CNTcbSign, leafSerial, ext, lw.nb, lw.na)
+		leaf = H.NewLeafKey(leafKey, CNTcbSign, leafSerial, ext, lw.nb, lw.na)
+	case "tcbSignByRoot": // a TCB-Signing-named certificate issued by the (trusted) root, carrying an SGX extension
+		k := leafKey
+		cert, der := Issue(CertSpec{CN: CNTcbSign, Serial: leafSerial, NotBefore: lw.nb, NotAfter: lw.na, CRLDP: dps,
+			SgxExt: ext, Pub: &k.PublicKey, Parent: H.Root.Cert, SignKey: H.Root.Key})
+		leaf = Entity{k, cert, der}
 	case "pckByRoot": // PCK-named, SGX extension, but issued directly by the (trusted) root
-		k := NewKey()
+		k := leafKey
 		cert, der := Issue(CertSpec{CN: CNPck, Serial: leafSerial, NotBefore: lw.nb, NotAfter: lw.na, CRLDP: []string{PckCrlURL("platform")},
 			SgxExt: ext, Pub: &k.PublicKey, Parent: H.Root.Cert, SignKey: H.Root.Key})
 		leaf = Entity{k, cert, der}
 	case "caAsLeaf": // a CA certificate (Platform-CA-named) issued by the root, carrying an SGX extension
-		k := NewKey()
+		k := leafKey
 		cert, der := Issue(CertSpec{CN: interCN, Serial: leafSerial, NotBefore: lw.nb, NotAfter: lw.na, IsCA: true, CRLDP: dps,
 			SgxExt: ext, Pub: &k.PublicKey, Parent: H.Root.Cert, SignKey: H.Root.Key})
 		leaf = Entity{k, cert, der}
@@ -316,6 +343,10 @@ func Build(w World, p Params) *Concrete {
 
 	embInter := Reissue(pki[w.Get("interPki")].Inter, pki[w.Get("interPki")].Root.Cert, pki[w.Get("interPki")].Root.Key, win["inter"].nb, win["inter"].na, nil)
 	embRoot := Reissue(pki[w.Get("rootPki")].Root, nil, pki[w.Get("rootPki")].Root.Key, win["root"].nb, win["root"].na, nil)
+	slotInter := embInter // what the second PEM block carries
+	if w.Get("interSlot") == "root" {
+		slotInter = embRoot
+	}
 
 	// ---- quote ----------------------------------------------------------------------
 	q := &Quote{Header: NewHeader(rng), Body: RandBytes(rng, BodySize)}
@@ -332,7 +363,7 @@ func Build(w World, p Params) *Concrete {
 	}
 	// keep XFAM / TD_ATTRIBUTES policy-neutral (all verify drivers ignore them)
 
-	k1, k2, k3 := NewKey(), NewKey(), NewKey()
+	k1, k2, k3 := NamedKey(ks, "ak1"), NamedKey(ks, "ak2"), NamedKey(ks, "ak3")
 	quoteKey := k1
 	if w.Get("bind") == "wrongHash" {
 		quoteKey = k2 // self-consistent quote signature under K2; QE report still vouches for K1
@@ -382,24 +413,26 @@ func Build(w World, p Params) *Concrete {
 	msg := append(append([]byte{}, q.Header...), q.Body...)
 	switch w.Get("qsig") {
 	case "ok":
-		q.Sig = SignRS(quoteKey, msg)
+		q.Sig = SignRSDet(quoteKey, msg, "quote")
 	case "otherKey":
-		q.Sig = SignRS(k3, msg)
+		q.Sig = SignRSDet(k3, msg, "quote")
 	case "zero":
 		q.Sig = make([]byte, 64)
 	case "sHigh": // r genuine, s := n (out of range)
-		q.Sig = SignRS(quoteKey, msg)
+		q.Sig = SignRSDet(quoteKey, msg, "quote")
 		elliptic.P256().Params().N.FillBytes(q.Sig[32:])
 	default:
 		panic("bad qsig")
 	}
 	switch w.Get("qeSigner") {
 	case "leaf":
-		q.QESig = SignRS(leaf.Key, q.QEReport)
+		q.QESig = SignRSDet(leaf.Key, q.QEReport, "qe")
+	case "otherLeaf": // signed by the platform's other PCK key: valid for a quote that embeds that other leaf, not for this one
+		q.QESig = SignRSDet(otherLeafKey, q.QEReport, "qe")
 	case "inter":
-		q.QESig = SignRS(embInter.Key, q.QEReport)
+		q.QESig = SignRSDet(embInter.Key, q.QEReport, "qe")
 	case "foreign":
-		q.QESig = SignRS(foreign, q.QEReport)
+		q.QESig = SignRSDet(foreign, q.QEReport, "qe")
 	default:
 		panic("bad qeSigner")
 	}
@@ -410,7 +443,7 @@ func Build(w World, p Params) *Concrete {
 		first = "X509 CERTIFICATE"
 	}
 	chain := append([]byte{}, PEMBlock(first, leaf.DER)...)
-	chain = append(chain, PEMCert(embInter.DER)...)
+	chain = append(chain, PEMCert(slotInter.DER)...)
 	switch w.Get("nBlocks") {
 	case "n3":
 		chain = append(chain, PEMCert(embRoot.DER)...)
@@ -580,11 +613,14 @@ func Build(w World, p Params) *Concrete {
 	case "modNoLevel":
 		tcb.Identities = []ModIdentity{decoy, {ID: modID, Levels: []ModLevel{{int(svn[0]) + 1, "UpToDate"}}}}
 		goodTcb.Identities = []ModIdentity{decoy, okMod}
+	case "modOmitted": // the signed member has no tdxModuleIdentities member at all
+		tcb.Identities = nil
+		goodTcb.Identities = []ModIdentity{decoy, okMod}
 	default:
 		panic("bad modBranch")
 	}
 	switch w.Get("tcbMeta") {
-	case "ok", "memberMissing":
+	case "ok", "memberMissing", "levelsOmitted":
 	case "wrongId":
 		tcb.ID = "SGX"
 	case "wrongVersion":
@@ -688,7 +724,7 @@ func Build(w World, p Params) *Concrete {
 		panic("bad qeContent")
 	}
 	switch w.Get("qeMeta") {
-	case "ok", "memberMissing":
+	case "ok", "memberMissing", "levelsOmitted":
 	case "wrongId":
 		qe.ID = "QE"
 	case "wrongVersion":
@@ -708,6 +744,9 @@ func Build(w World, p Params) *Concrete {
 	build := func(doc string, memberKey string, member []byte, goodMember []byte, signer Entity, hdrName string, rootArt string,
 		signerDim, overDim, alterDim, extraDim, hdrDim, metaDim string) (Response, []byte, []byte) {
 		root := hdrRoot(rootArt)
+		if w.Get(metaDim) == "levelsOmitted" { // the signed member simply has no tcbLevels member
+			member = dropKey(member, "tcbLevels")
+		}
 		raw := NonCanonical(member)
 		signKey := signer.Key
 		hdrCerts := [][]byte{signer.DER, root.DER}
@@ -733,6 +772,14 @@ func Build(w World, p Params) *Concrete {
 		case "selfSigned":
 			k := NewKey()
 			_, dd := Issue(CertSpec{CN: CNTcbSign, Serial: big.NewInt(0x1003), NotBefore: farNB, NotAfter: farNA, CRLDP: dps, Pub: &k.PublicKey, SignKey: k})
+			signKey = k
+			hdrCerts = [][]byte{dd, root.DER}
+		case "lookalikeSameSerial":
+			// a certificate that repeats the genuine TCB-Info signer's subject, issuer name and serial number but carries a
+			// foreign key and is signed by the look-alike root; presented next to the genuine root certificate
+			k := NamedKey(ks, "lookalike-signer")
+			_, dd := Issue(CertSpec{CN: CNTcbSign, Serial: H.TcbSign.Cert.SerialNumber, NotBefore: farNB, NotAfter: farNA, CRLDP: dps, Pub: &k.PublicKey,
+				Parent: O.Root.Cert, SignKey: O.Root.Key})
 			signKey = k
 			hdrCerts = [][]byte{dd, root.DER}
 		default:
@@ -900,6 +947,8 @@ func Build(w World, p Params) *Concrete {
 	case "otherPki": // the look-alike PKI's intermediate
 		o := pki[otherPKI(w.Get("interPki"))]
 		pckCrl = CRL(o.Inter.Cert, o.Inter.Key, pckRev, pcw.nb, pcw.na)
+	case "foreignWithHeader": // foreign key, intermediate's name, and a response header that vouches for that key
+		pckCrl = CRL(named(embInter.Cert, foreign), foreign, pckRev, pcw.nb, pcw.na)
 	default:
 		panic("bad pckCrlSigner")
 	}
@@ -921,6 +970,12 @@ func Build(w World, p Params) *Concrete {
 	crlSignerCert := Reissue(H.Inter, H.Root.Cert, H.Root.Key, win["pckCrlSigner"].nb, win["pckCrlSigner"].na, nil)
 	crlRootCert := hdrRoot("pckCrlRoot")
 	pckHdr := map[string][]string{HdrPckCrl: {IssuerChainHeader(crlSignerCert.DER, crlRootCert.DER)}}
+	if w.Get("pckCrlSigner") == "foreignWithHeader" {
+		// look-alike "Intel SGX PCK Platform CA" certificate for the foreign key, self-issued under the intermediate's names
+		_, fder := Issue(CertSpec{CN: interCN, Serial: embInter.Cert.SerialNumber, NotBefore: farNB, NotAfter: farNA, IsCA: true, CRLDP: dps,
+			Pub: &foreign.PublicKey, SignKey: foreign})
+		pckHdr = map[string][]string{HdrPckCrl: {IssuerChainHeader(fder, crlRootCert.DER)}}
+	}
 	switch w.Get("pckCrlFetch") {
 	case "ok":
 		g.Set(c.PckCrlURL, Response{Header: pckHdr, Body: pckCrl})
@@ -946,4 +1001,19 @@ func Build(w World, p Params) *Concrete {
 		}
 	}
 	return c
+}
+
+
+// dropKey removes a top-level member from a JSON object (keeping the other members' order is not needed: the result is signed afterwards).
+func dropKey(obj []byte, key string) []byte {
+	var m map[string]json.RawMessage
+	if err := json.Unmarshal(obj, &m); err != nil {
+		panic(err)
+	}
+	delete(m, key)
+	b, err := json.Marshal(m)
+	if err != nil {
+		panic(err)
+	}
+	return b
 }
